@@ -19,7 +19,7 @@ Lemma fa_kwargs_ok p : fa_kwargs p = true -> forall b, p b = true.
 Proof. unfold fa_kwargs; intros H b; repeat (apply andb_prop in H; destruct H as [H ?]); destruct b; assumption. Qed.
 
 Definition fa_kind (p : callable_kind -> bool) : bool :=
-  p KBoundMethod && p KFunction && p KFunctionSelfAttr && p KCallableObj && p KCallableStatic && p KNoCall.
+  p KBoundMethod && p KBoundMethodFalsy && p KFunction && p KFunctionSelfAttr && p KCallableObj && p KCallableStatic && p KNoCall.
 Lemma fa_kind_ok p : fa_kind p = true -> forall b, p b = true.
 Proof. unfold fa_kind; intros H b; repeat (apply andb_prop in H; destruct H as [H ?]); destruct b; assumption. Qed.
 
